@@ -376,6 +376,17 @@ pub fn exec(c: &RenderCase, st: &mut Stats) -> Vec<Viol> {
             ));
             continue;
         }
+        if *name == "custom_tail" {
+            // a formatter that words every message itself: its words must arrive in full
+            // (validation reports word their issues themselves and do not go through the formatter)
+            if !t.contains(lab::CUSTOM_TAIL) && !info.kind.starts_with("Validat") {
+                out.push(mk(
+                    "formatter-message-cut",
+                    format!("the custom formatter's message ends with {:?}; rendered: {:?}", lab::CUSTOM_TAIL, trunc(t)),
+                ));
+            }
+            continue;
+        }
         if *name == "miette" {
             // header `[input.yaml:L:C]` names the reported position
             if let Some(i) = t.find("[input.yaml:")
@@ -415,6 +426,20 @@ pub fn exec(c: &RenderCase, st: &mut Stats) -> Vec<Viol> {
             continue;
         }
         let blocks = parse_blocks(t);
+        // (string input only: the reader's recent-bytes window may legitimately have moved past the line)
+        if blocks.is_empty() && has_snippet && *name != "snippet_off" && *name != "debug" && matches!(c.entry, REntry::Str) && c.radius > 0 {
+            // the error carries a source window, yet this renderer shows no source line at all
+            let line_exists = info.line > 0
+                && ((info.line as usize) < orig_lines.len()
+                    || ((info.line as usize) == orig_lines.len() && !orig_lines.last().map(|l| l.is_empty()).unwrap_or(true)));
+            st.bump("snippet.stored_but_not_rendered");
+            if line_exists && !info.kind.starts_with("Validat") {
+                out.push(mk(
+                    "snippet-dropped-at-render",
+                    format!("{name}: the error holds a source window for {}:{}, the report shows none: {:?}", info.line, info.col, trunc(t)),
+                ));
+            }
+        }
         if blocks.is_empty() {
             // no snippet: the text must still name the reported line and column
             if info.line > 0 && *name != "debug" {
@@ -604,6 +629,9 @@ const NASTY_ESCAPED: &[&str] = &[
     "\\x1bc",
     "\\u009b1m",
     "\\x90dcs\\x9c",
+    // a carriage return as the only control character of the reflected text
+    "over\\rwrite",
+    "\\r",
 ];
 
 const SUFFIX: &[&str] = &["", "", "", "é", "日本", "😀", "_long_key_name_here"];
@@ -677,7 +705,14 @@ fn gen_doc(rng: &mut Rng, target: RTarget) -> String {
         let is_bad = i == bad_line;
         match target {
             RTarget::MapVec => {
-                let len = if rng.chance(1, 8) { rng.range(40, 400) } else { rng.below(8) };
+                // (the stored window is cropped horizontally from 4 KiB per line / 16 KiB per window on)
+                let len = if rng.chance(1, 14) {
+                    rng.range(900, 4500)
+                } else if rng.chance(1, 8) {
+                    rng.range(40, 400)
+                } else {
+                    rng.below(8)
+                };
                 let bad_at = if is_bad && len > 0 { Some(rng.below(len)) } else { None };
                 let items: Vec<String> = (0..len)
                     .map(|j| {
